@@ -213,3 +213,9 @@ def replay(cex):
 
 def finding_key(cex):
     return "%s:%s:%s" % (cex["kind"], cex.get("size"), cex["seq"])
+
+
+def fallback(item):
+    if item["kind"] == "user":
+        return []
+    return [dict(seq=q, kind=item["kind"], size=item.get("size")) for q in fallback_seqs(item)]
